@@ -4,7 +4,7 @@
 EXTENDS Cli, Json
 VARIABLES cfg, step
 Fields == <<"stdin", "kind", "text", "threads", "parallel", "single", "inmem", "unc", "bs", "zooms", "style", "invoke", "bthreads", "binmem", "restrict">>
-Dom(f) == CASE f = "stdin" -> {0, 1} [] f = "kind" -> {"bw", "bb"} [] f = "text" -> {1, 2, 3}
+Dom(f) == CASE f = "stdin" -> {0, 1} [] f = "kind" -> {"bw", "bb"} [] f = "text" -> {1, 2, 3, 4}
             [] f = "threads" -> {1, 2, 6, 16} [] f = "parallel" -> {"auto", "yes", "no"} [] f = "single" -> {0, 1}
             [] f = "inmem" -> {0, 1} [] f = "unc" -> {0, 1} [] f = "bs" -> {0, 2, 5} [] f = "zooms" -> {0, 1}
             [] f = "style" -> {"native", "ucsc"} [] f = "invoke" -> {"own", "multicall", "mixedcase"}
